@@ -9,7 +9,7 @@
    parameter over which the theorems quantify (Workflow.compile's visiting order [ord];
    accept / reject is proved independent of it) or proved irrelevant (validateDAG's
    sweeps, the type inference loop).  Only statements, each closed by [exact]. *)
-From Eino Require Import Base.Util Model.Builder Proofs.Builder Proofs.BuilderReject Proofs.BuilderDag Proofs.BuilderSound Proofs.BuilderReject2 Proofs.BuilderInfer Proofs.BuilderWfOrder.
+From Eino Require Import Base.Util Model.Builder Proofs.Builder Proofs.BuilderReject Proofs.BuilderDag Proofs.BuilderSound Proofs.BuilderReject2 Proofs.BuilderInfer Proofs.BuilderWfOrder Proofs.BuilderReject3.
 From Coq Require Import Permutation.
 Local Open Scope string_scope.
 Local Open Scope list_scope.
@@ -120,6 +120,42 @@ Example rejects_deferred_nonvacuous :
   /\ snd (wstep fixed (final (wstep fixed) (w_init false) wf_unknown_input) (WCompile opt_default [] []))
      = OErr EEdgeStartUnknown.
 Proof. exact (conj wf_unknown_input_hyp wf_unknown_input_rejected). Qed.
+
+(* rejects_each_kind, continued: conflicting declarations on ONE Workflow node, met when Compile
+   makes the node's deferred AddInput / AddInputWithOptions / AddDependency calls (the deprecated
+   AddEnd is End().AddInput since d4925e3, so END's declarations are covered whichever way they
+   were made).  In every state, for every Compile option and every pair of visiting orders:
+   1. duplicate edge: two declarations from the same predecessor that both make a control edge
+      (neither is WithNoDirectDependency) or both make a data edge (neither is AddDependency);
+   2. overlapping mapping targets: two data declarations of which one maps the whole input, or
+      which share a target field;
+   3. one data declaration naming a target field twice. *)
+Theorem rejects_conflicting_inputs :
+  (forall w o ord sord k n l1 i1 l2 i2 l3,
+      alist_get k (w_nodes w) = Some n -> wn_pending n = l1 ++ i1 :: l2 ++ i2 :: l3 -> same_dependency i1 i2 ->
+      is_err (snd (wstep fixed w (WCompile o ord sord))))
+  /\ (forall w o ord sord k n l1 i1 l2 i2 l3,
+      alist_get k (w_nodes w) = Some n -> wn_pending n = l1 ++ i1 :: l2 ++ i2 :: l3 -> overlapping i1 i2 ->
+      is_err (snd (wstep fixed w (WCompile o ord sord))))
+  /\ (forall w o ord sord k n l1 i l2,
+      alist_get k (w_nodes w) = Some n -> wn_pending n = l1 ++ i :: l2 ->
+      adds_data i = true -> has_dup (wi_fields i) = true ->
+      is_err (snd (wstep fixed w (WCompile o ord sord)))).
+Proof.
+  exact (conj workflow_rejects_duplicate_dependency workflow_rejects_overlapping_mappings).
+Qed.
+Print Assumptions rejects_conflicting_inputs.
+
+Example rejects_conflicting_inputs_nonvacuous :
+  (let w := final (wstep fixed) (w_init false) wf_dup_dependency in
+   exists n i1 i2, alist_get "b" (w_nodes w) = Some n /\ wn_pending n = [] ++ i1 :: [] ++ i2 :: [] /\ same_dependency i1 i2)
+  /\ snd (wstep fixed (final (wstep fixed) (w_init false) wf_dup_dependency) (WCompile opt_default [] [])) = OErr EDupCtrlEdge
+  /\ (let w := final (wstep fixed) (w_init false) wf_addend_overlap in
+      exists n i1 i2, alist_get END_ (w_nodes w) = Some n /\ wn_pending n = [] ++ i1 :: [] ++ i2 :: [] /\ overlapping i1 i2)
+  /\ snd (wstep fixed (final (wstep fixed) (w_init false) wf_addend_overlap) (WCompile opt_default [] [])) = OErr EMapConflict.
+Proof.
+  exact (conj wf_dup_dependency_hyp (conj wf_dup_dependency_rejected (conj wf_addend_overlap_hyp wf_addend_overlap_rejected))).
+Qed.
 
 (* ------------------------------------------------------------------ no_modification_after_compile *)
 (* After a successful Compile: a Graph refuses every Add* with the compiled error and no
